@@ -6084,7 +6084,8 @@ func (t *Terminal) Loop() error {
 					effectiveHeight := t.pwindow.Height() - headerLines
 					numLines := len(t.previewer.lines) - headerLines
 					barLength, _ := getScrollbar(1, numLines, effectiveHeight, util.Min(numLines-effectiveHeight, t.previewer.offset-headerLines))
-					if barLength > 0 {
+					// The bar of a one-row window is as long as the window: nowhere to drag it
+					if barLength > 0 && barLength < effectiveHeight {
 						y := my - t.pwindow.Top() - headerLines - barLength/2
 						y = util.Constrain(y, 0, effectiveHeight-barLength)
 						// offset = (total - maxItems) * barStart / (maxItems - barLength)
